@@ -506,3 +506,31 @@ func (p *Program) privateCluster(fn *ssa.Function) []*ssa.Function {
 	}
 	return out
 }
+
+var clusterCache = map[*ssa.Function]map[*ssa.Function]bool{}
+
+// inClusterOf: fn is owner or one of the helpers split off it (privateCluster).
+func (p *Program) inClusterOf(owner, fn *ssa.Function) bool {
+	if owner == nil || fn == nil {
+		return false
+	}
+	m, ok := clusterCache[owner]
+	if !ok {
+		m = map[*ssa.Function]bool{}
+		for _, g := range p.privateCluster(owner) {
+			m[g] = true
+		}
+		clusterCache[owner] = m
+	}
+	return m[fn]
+}
+
+// funcByShortName finds a module function by its shortName.
+func (p *Program) funcByShortName(name string) *ssa.Function {
+	for _, fn := range p.Funcs {
+		if shortName(fn) == name {
+			return fn
+		}
+	}
+	return nil
+}
